@@ -13,7 +13,7 @@ CLAIMED = {
    "Trusted: go/ssa, VTA call graph (sound without reflect/unsafe, which R3 forbids), the pure-package list, field-based heap abstraction.",
    "DESIGN.md §2.1, §3 C05"),
  "C20": ("proof", "E2-tables",
-   "exhaustive constant extraction of the five table literals from the type-checked AST; per-entry well-formedness rules; per-entry comparison with the committed baseline snapshot; writer audit from E1",
+   "exhaustive constant extraction of the five table literals from the type-checked AST; per-entry well-formedness rules; per-entry comparison with the committed baseline snapshot; writer audit from E1, including package variables whose initialiser shares storage with a table",
    "Finite property, enumerated completely: 2 obligations or more per table entry and one per baseline entry, all discharged.",
    "Trusted: go/types constant evaluation, the extractor, baseline/tables.json (produced once from the pinned commit).",
    "DESIGN.md §2.2, §3 C20"),
